@@ -24,9 +24,11 @@ def secpPubOfPriv (k : Bytes) : R Bytes :=
     | some p => pure p
     | none => throw .value
 
-/-- scalar multiplication as the coincurve adapter does it: the scalar must be in `(0, n)` -/
+/-- scalar multiplication as the point adapters do it: the scalar is reduced modulo `n`; a zero
+result (point at infinity) is refused -/
 def secpMul (pubComp : Bytes) (s : Nat) : R Bytes :=
-  if s = 0 || s ≥ Prim.secp256k1.n then throw .value
+  let s := s % Prim.secp256k1.n
+  if s = 0 then throw .value
   else match Prim.secp256k1.decode pubComp with
     | some p => match Prim.secp256k1.compress (Prim.secp256k1.mul s p) with
       | some c => pure c
@@ -34,7 +36,8 @@ def secpMul (pubComp : Bytes) (s : Nat) : R Bytes :=
     | none => throw .value
 
 def secpMulG (s : Nat) : R Bytes :=
-  if s = 0 || s ≥ Prim.secp256k1.n then throw .value
+  let s := s % Prim.secp256k1.n
+  if s = 0 then throw .value
   else match Prim.secp256k1.compress (Prim.secp256k1.mulG s) with
     | some c => pure c
     | none => throw .value
